@@ -2,8 +2,8 @@
 import io
 from vfam import *  # noqa
 
-THEOREMS = ["C03_uint_roundtrip", "C03_uint_same_value", "C03_bool_roundtrip"]
-PARTIAL = ["C03_roundtrip is proved for uintN and boolean with scoped stream decoding (arbitrary suffix returned untouched); for every other kind it is tied by the correspondence: encoding placed between a random prefix and suffix, decoded with the exact scope, success / root / re-encoding / == / bytes consumed compared with the model (random, boundary and full values, nested variable-size types)"]
+THEOREMS = ["C03_roundtrip", "C03_decode_encode", "C03_uint_roundtrip", "C03_uint_same_value", "C03_bool_roundtrip"]
+PARTIAL = ["C03_roundtrip is the full statement for every type (decoded backing = constructed backing, suffix untouched) under the premise that the encoding is shorter than 2^32 bytes (4-byte SSZ offsets); the stream is modelled as its remaining bytes, so an arbitrary PREFIX before the encoding and the Python stream object are covered by the correspondence (random prefix / suffix, exact scope; success, root, re-encoding, ==, bytes consumed), as is the == operator itself"]
 COQ_IMPORTS = ["RM.Types", "RMR.RunV"]
 COQ_FN = "RunV.run_c03"
 COQ_CASE_TY = "(ty * val * bytes)"
